@@ -79,7 +79,7 @@ pub struct Machine<'a> {
     pub nm: NoiseModel,
     pub pool: Vec<Elem>,
     pub plains: Vec<Vec<u64>>,
-    pub relin_keys: RelinKeys,
+    pub relin_keys: Option<RelinKeys>,
     pub stats: ProgStats,
     pub encoder: BatchEncoder,
 }
@@ -92,7 +92,7 @@ impl<'a> Machine<'a> {
         let nm = NoiseModel::new(w);
         let encoder = BatchEncoder::new(w.context.clone());
         let plains: Vec<Vec<u64>> = case.plains.iter().map(|p| plain_poly(p, n, t)).collect();
-        let relin_keys = catch(|| w.keygen.create_relin_keys(false)).map_err(|p| format!("create_relin_keys panicked: {p}"))?;
+        let relin_keys = if w.has_special_prime() { Some(catch(|| w.keygen.create_relin_keys(false)).map_err(|p| format!("create_relin_keys panicked: {p}"))?) } else { None };
         let mut pool = vec![];
         for (pk, pi) in &case.inits {
             let poly = &plains[pick_idx(*pi, plains.len())];
@@ -191,6 +191,7 @@ impl<'a> Machine<'a> {
                 Some(Planned { kind: op.kind, a, b: None, c: None, plain: None, plain_poly: None, msg: e.msg.clone(), level: e.level, size: e.size, ntt: !want, lv_pre: e.lv })
             }
             OpKind::Relin => {
+                self.relin_keys.as_ref()?;
                 let a = pick(&self.cands(|e| e.ntt == dn && e.size == 3), op.a)?;
                 let e = &self.pool[a];
                 Some(Planned { kind: op.kind, a, b: None, c: None, plain: None, plain_poly: None, msg: e.msg.clone(), level: e.level, size: 2, ntt: dn, lv_pre: e.lv })
@@ -219,7 +220,7 @@ impl<'a> Machine<'a> {
             OpKind::MulPlain => ev.multiply_plain_new(a, p.plain.as_ref().unwrap()),
             OpKind::ToNtt => ev.transform_to_ntt_new(a),
             OpKind::FromNtt => ev.transform_from_ntt_new(a),
-            OpKind::Relin => ev.relinearize_new(a, &self.relin_keys),
+            OpKind::Relin => ev.relinearize_new(a, self.relin_keys.as_ref().unwrap()),
             OpKind::ModSwitch => ev.mod_switch_to_next_new(a),
         })
     }
